@@ -139,7 +139,10 @@ def run(tier):
     # valid multi-module programs whose initialisers depend on each other (the C10 scheme): the order of module
     # initialisation must not vary between compilations
     import c10
-    for g in ([[1], [2], [3], []], [[1, 2], [3], [3], []], [[2, 1], [3], [3, 1], []], [[1], [2, 3], [3], []], [[3, 2, 1], [2], [3], []]):
+    # (the last two: several mutually independent modules imported by a module that is not the main module - their initialisers run in the
+    #  textual order of the import statements of that module in every compilation)
+    for g in ([[1], [2], [3], []], [[1, 2], [3], [3], []], [[2, 1], [3], [3, 1], []], [[1], [2, 3], [3], []], [[3, 2, 1], [2], [3], []],
+              [[1], [2, 3, 4, 5, 6, 7], [], [], [], [], [], []], [[1, 2], [5, 3, 4], [7, 6, 5], [], [], [], [], []]):
         G = dict(n=len(g), imp=[[dict(t=t, sel="all") for t in imps] for imps in g])
         files = {"main.ddp": c10.main_src(G["imp"][0]).encode()}
         for k in range(1, G["n"]):
